@@ -13,6 +13,7 @@ package jobs
 
 //@ unit (*IncrementalPipeline).sync$1
 //@   prop C10 C08
+//@   preserves SyncJobState.ID
 //@   safe make slice
 //@   ghost covered int = 0
 //@   ghost startedG int = 0
@@ -41,6 +42,24 @@ package jobs
 //@   at call Wait#1 before
 //@     assert [all-covered] covered == len(entities)
 //@     assert [C11:wait-returns-because-every-slot-has-a-worker] startedG == parallelisms
+//@   ghost offG intmap
+//@   ghost preG []*server.Entity
+//@   ghost addG []*server.Entity
+//@   at call append#1 before
+//@     ghost offG := put(offG, i, len($arg0))
+//@     ghost preG := $arg0
+//@     ghost addG := $arg1
+//@     assert [C10:what-is-appended-is-the-result-of-the-worker-whose-turn-it-is] $arg1 == workResults[i].entities
+//@   at call append#1
+//@     assert [C10:a-workers-result-is-appended-whole-behind-the-output-so-far-which-stays-as-it-is] len($result) == len(preG) + len(addG) && (forall k int :: 0 <= k && k < len(preG) ==> $result[k] == preG[k])
+//@   loop 2
+//@     invariant 0 <= i && i <= parallelisms && len(workResults) == parallelisms
+//@     invariant [C10:the-chunks-of-the-output-follow-one-another-in-worker-order-without-gap-or-overlap] forall w int :: 0 <= w && w < i ==> 0 <= offG[w] && (w == 0 ==> offG[w] == 0) && (w + 1 < i ==> offG[w + 1] == offG[w] + len(workResults[w].entities)) && (w + 1 == i ==> offG[w] + len(workResults[w].entities) == len(entities))
+//@     invariant i == 0 ==> len(entities) == 0
+//@   at loop 2 exit
+//@     assert [C10:no-workers-result-is-left-out-of-the-output] i == parallelisms && (parallelisms > 0 ==> offG[parallelisms - 1] + len(workResults[parallelisms - 1].entities) == len(entities))
+//@   at call processEntities#1 before
+//@     assert [C10:the-sink-is-handed-the-batch-as-it-stands-after-the-transform] $arg2 == entities && $arg1 == runner
 
 // ---------------------------------------------------------------------------
 // C11: the ticket raffle: one run per job id, pools never exceeded, slot always released
@@ -182,18 +201,154 @@ package jobs
 //@   modifies $syncCalls
 //@   ensures $syncCalls == old($syncCalls) + 1
 
+// spec() hands out the pipeline's own PipelineSpec (both implementations return &pipeline.PipelineSpec): the same
+// pointer for the same pipeline, never nil
+//@ spec specOf(p iface) *PipelineSpec
 //@ assumed (jobs.Pipeline).spec
 //@   pure
+//@   ensures result == specOf(recv) && result != nil
 //@ assumed (source.Source).GetConfig
 //@   pure
 //@ assumed (jobs.Sink).GetConfig
 //@   pure
 //@ assumed os.LookupEnv
 //@   pure
-//@ assumed jobs.queueRetry
+// a full sync that found no ticket is queued for one retry per job id: the marker (retryJobIds, modelled by $retryQueued)
+// is taken and released under the job's own id, a job already waiting is not queued again, and the waiting goroutine
+// releases the marker BEFORE it runs the job again (a retry that again finds no ticket must be able to queue itself)
+//@ ghost $retryQueued strset
+//@ assumed (*sync.Map).LoadOrStore
+//@   modifies $retryQueued
+//@   ensures ret1 == old(has($retryQueued, cast(key, "string")))
+//@   ensures $retryQueued == put(old($retryQueued), cast(key, "string"), true)
+//@ assumed (*sync.Map).Delete
+//@   modifies $retryQueued
+//@   ensures $retryQueued == put(old($retryQueued), cast(key, "string"), false)
+//@ assumed jobrunner.New
 //@   pure
-//@ assumed (*job).instrumentErrorHandling
-//@   preserves raffle.*, map[string]*jobs.runState, runState.*, ticket.*, job.id, job.runner, job.pipeline, job.errorHandlers, []*jobs.ErrorHandler, Runner.*
+//@ unit jobs.queueRetry
+//@   prop C11
+//@   ghost startedG int = 0
+//@   requires j != nil && j.runner != nil
+//@   modifies $retryQueued, []interface{}
+//@   ensures [C11:a-job-already-waiting-for-its-retry-is-not-queued-a-second-time] old(has($retryQueued, j.id)) ==> !result && startedG == 0
+//@   ensures [C11:a-queued-retry-is-marked-under-the-jobs-id-and-started-exactly-once] !old(has($retryQueued, j.id)) ==> result && startedG == 1 && has($retryQueued, j.id)
+//@   ensures [C11:the-retry-markers-of-other-jobs-are-left-alone] forall k string :: k != j.id ==> (has($retryQueued, k) <==> old(has($retryQueued, k)))
+//@   at call LoadOrStore#1 before
+//@     assert [C11:the-retry-marker-is-taken-under-the-jobs-own-id] typeof(key) == typeid("string") && cast(key, "string") == j.id
+//@   at call queueRetry$1#1 before
+//@     ghost startedG := startedG + 1
+//@ unit jobs.queueRetry$1
+//@   prop C11
+//@   requires j != nil
+//@   at call Delete#1 before
+//@     assert [C11:the-retry-marker-released-is-the-one-of-the-job-being-retried] typeof(key) == typeid("string") && cast(key, "string") == j.id
+//@   at call New#1 before
+//@     assert [C11:the-retry-runs-the-very-job-that-was-queued] cast($arg0, "*jobs.job") == j && typeof($arg0) == typeid("*jobs.job")
+//@   at call Run#1 before
+//@     assert [C11:the-marker-is-released-before-the-retry-runs-so-that-it-can-queue-itself-again] !has($retryQueued, j.id)
+// C17 / C11: attaching the per-entity error handling to a run. The failing-entity handlers of the job's log handlers -
+// those and no others, in order - are collected; without one nothing is wrapped; with one the pipeline's sink is (or
+// already was) the bisecting wrapper around the configured sink, carrying the job's id and exactly the collected
+// handlers; a wrapper kept from an earlier run starts the new run with its split latch released and its handler's
+// budget reset. (The budget of "the" handler is the ghost $hcount of the wrappedSink proof, which is about wrappers
+// with a single handler.)
+//@ assumed (jobs.failingEntityHandler).reset
+//@   modifies $hcount
+//@   ensures $hcount == 0
+//@ unit (*LogFailingEntityHandler).reset
+//@   prop C17
+//@   requires l != nil
+//@   modifies LogFailingEntityHandler.count
+//@   ensures [C17:a-new-run-counts-its-rejections-from-zero] l.count == 0
+//@ unit (*wrappedSink).reset
+//@   prop C17
+//@   requires w != nil
+//@   modifies wrappedSink.recursionDepth, $hcount
+//@   ensures [C17:a-new-run-starts-with-the-split-latch-released] w.recursionDepth == 0
+//@   ensures [C17:a-new-run-starts-with-the-budget-of-its-handler-reset] len(w.failingEntityHandlers) > 0 ==> $hcount == 0
+//@   loop 1
+//@     invariant -1 <= $i && $i < len(w.failingEntityHandlers) && ($i >= 0 ==> $hcount == 0)
+//@     invariant [C17:the-split-latch-is-released-before-the-handlers-are-reset] w.recursionDepth == 0
+//@ unit (*wrappedTransform).reset
+//@   prop C17
+//@   requires w != nil
+//@   modifies $hcount
+//@   ensures [C17:a-new-run-starts-with-the-budget-of-its-handler-reset] len(w.failingEntityHandlers) > 0 ==> $hcount == 0
+//@   loop 1
+//@     invariant -1 <= $i && $i < len(w.failingEntityHandlers) && ($i >= 0 ==> $hcount == 0)
+
+// the wrappers installed by the error handling are transparent for everything but the bisecting of rejected batches:
+// the transform wrapper hands the whole batch to the configured transform and hands back exactly what that returned
+// (entities and error), with the configured parallelism; the sink wrapper starts and completes full syncs on the
+// configured sink and reports that sink's outcome
+//@ unit (*wrappedTransform).transformEntities
+//@   prop C10 C17
+//@   ghost outG []*server.Entity
+//@   ghost errG iface
+//@   requires w != nil
+//@   modifies $transformCalls
+//@   ensures $transformCalls == old($transformCalls) + 1
+//@   ensures [C10,C17:the-wrapped-transforms-output-and-verdict-are-handed-on-unchanged] ret0 == outG && ret1 == errG
+//@   at call transformEntities#1 before
+//@     assert [C10,C17:the-whole-batch-goes-to-the-configured-transform] $arg0 == w.t && $arg1 == runner && $arg2 == entities && $arg3 == jobTag
+//@   at call transformEntities#1
+//@     ghost outG := $result0
+//@     ghost errG := $result1
+//@ unit (*wrappedTransform).getParallelism
+//@   prop C10
+//@   ghost parG int = 0
+//@   requires w != nil
+//@   modifies none
+//@   ensures [C10:the-configured-parallelism-is-kept-when-a-transform-is-wrapped] result == parG
+//@   at call getParallelism#1 before
+//@     assert [C10:the-parallelism-asked-for-is-the-configured-transforms] $arg0 == w.t
+//@   at call getParallelism#1
+//@     ghost parG := $result
+//@ unit (*wrappedSink).startFullSync
+//@   prop C09 C17
+//@   ghost errG iface
+//@   requires w != nil
+//@   ensures [C09,C17:the-wrapped-sinks-verdict-on-the-start-is-handed-on] result == errG
+//@   at call startFullSync#1 before
+//@     assert [C09,C17:a-full-sync-is-started-on-the-configured-sink] $arg0 == w.s && $arg1 == runner
+//@   at call startFullSync#1
+//@     ghost errG := $result
+//@ unit (*wrappedSink).endFullSync
+//@   prop C09 C17
+//@   ghost errG iface
+//@   requires w != nil
+//@   ensures [C09,C17:the-wrapped-sinks-verdict-on-the-completion-is-handed-on] result == errG
+//@   at call endFullSync#1 before
+//@     assert [C09,C17:a-full-sync-is-completed-on-the-configured-sink] $arg0 == w.s && $arg1 == ctx && $arg2 == runner
+//@   at call endFullSync#1
+//@     ghost errG := $result
+
+//@ unit (*job).instrumentErrorHandling
+//@   prop C17 C11
+//@   ghost nLogG int = 0
+//@   ghost dstG intmap
+//@   ghost fehG slice
+//@   requires j != nil && !isnil(j.pipeline)
+//@   requires forall i int :: 0 <= i && i < len(j.errorHandlers) ==> j.errorHandlers[i] != nil
+//@   requires typeof(specOf(j.pipeline).sink) == typeid("*jobs.wrappedSink") ==> cast(specOf(j.pipeline).sink, "*jobs.wrappedSink") != nil
+//@   requires typeof(specOf(j.pipeline).transform) == typeid("*jobs.wrappedTransform") ==> cast(specOf(j.pipeline).transform, "*jobs.wrappedTransform") != nil
+//@   preserves raffle.*, map[string]*jobs.runState, runState.*, ticket.*, job.id, job.runner, job.pipeline, job.errorHandlers, []*jobs.ErrorHandler, Runner.*, ErrorHandler.*
+//@   ensures [C17:without-a-log-handler-the-pipeline-is-left-as-configured] nLogG == 0 ==> specOf(j.pipeline).sink == old(specOf(j.pipeline).sink) && specOf(j.pipeline).transform == old(specOf(j.pipeline).transform)
+//@   ensures [C17:with-a-log-handler-the-sink-is-the-bisecting-wrapper] nLogG > 0 ==> typeof(specOf(j.pipeline).sink) == typeid("*jobs.wrappedSink") && cast(specOf(j.pipeline).sink, "*jobs.wrappedSink") != nil
+//@   ensures [C17:a-sink-is-wrapped-once-and-the-wrapper-is-kept-for-later-runs] old(typeof(specOf(j.pipeline).sink)) == typeid("*jobs.wrappedSink") ==> specOf(j.pipeline).sink == old(specOf(j.pipeline).sink)
+//@   ensures [C17:a-new-wrapper-wraps-the-configured-sink-with-the-jobs-id-and-the-collected-handlers] nLogG > 0 && old(typeof(specOf(j.pipeline).sink)) != typeid("*jobs.wrappedSink") ==> cast(specOf(j.pipeline).sink, "*jobs.wrappedSink").s == old(specOf(j.pipeline).sink) && cast(specOf(j.pipeline).sink, "*jobs.wrappedSink").jobId == j.id && cast(specOf(j.pipeline).sink, "*jobs.wrappedSink").failingEntityHandlers == fehG && cast(specOf(j.pipeline).sink, "*jobs.wrappedSink").recursionDepth == 0 && cast(specOf(j.pipeline).sink, "*jobs.wrappedSink").lastError == nil
+//@   ensures [C17:a-wrapper-kept-from-an-earlier-run-starts-with-its-latch-released-and-its-budget-reset] nLogG > 0 && old(typeof(specOf(j.pipeline).sink)) == typeid("*jobs.wrappedSink") ==> cast(specOf(j.pipeline).sink, "*jobs.wrappedSink").recursionDepth == 0 && (len(cast(specOf(j.pipeline).sink, "*jobs.wrappedSink").failingEntityHandlers) > 0 ==> $hcount == 0)
+//@   ensures [C17:one-collected-handler-per-log-handler] len(fehG) == nLogG || nLogG == 0
+//@   at call append#1 before
+//@     assert [C17:only-the-entity-handlers-of-log-handlers-are-collected] eh.Type == "log" && $arg1[0] == eh.failingEntityHandler && eh == j.errorHandlers[$i1 + 1]
+//@     ghost dstG := put(dstG, $i1 + 1, len(failingEntityHandlers))
+//@     ghost nLogG := nLogG + 1
+//@   at call len#2 before
+//@     ghost fehG := failingEntityHandlers
+//@   loop 1
+//@     invariant -1 <= $i && $i < len(j.errorHandlers) && len(failingEntityHandlers) == nLogG && nLogG >= 0
+//@     invariant [C17:every-log-handler-seen-so-far-has-its-entity-handler-collected] forall m int :: 0 <= m && m <= $i && j.errorHandlers[m].Type == "log" ==> 0 <= dstG[m] && dstG[m] < len(failingEntityHandlers) && failingEntityHandlers[dstG[m]] == j.errorHandlers[m].failingEntityHandler
 
 //@ unit (*job).Run
 //@   prop C11 C17
@@ -203,6 +358,9 @@ package jobs
 //@   requires j.runner.raffle.ticketsFull >= 0 && j.runner.raffle.ticketsIncr >= 0
 //@   requires j.runner.store != nil
 //@   requires forall i int :: 0 <= i && i < len(j.errorHandlers) ==> j.errorHandlers[i] != nil
+//@   requires !isnil(j.pipeline)
+//@   requires typeof(specOf(j.pipeline).sink) == typeid("*jobs.wrappedSink") ==> cast(specOf(j.pipeline).sink, "*jobs.wrappedSink") != nil
+//@   requires typeof(specOf(j.pipeline).transform) == typeid("*jobs.wrappedTransform") ==> cast(specOf(j.pipeline).transform, "*jobs.wrappedTransform") != nil
 //@   ensures [tickets-conserved] j.runner.raffle.ticketsFull == old(j.runner.raffle.ticketsFull) && j.runner.raffle.ticketsIncr == old(j.runner.raffle.ticketsIncr)
 //@   ensures [slot-released] !old(has(j.runner.raffle.runningJobs, j.id)) ==> !has(j.runner.raffle.runningJobs, j.id)
 //@   ensures [no-overlapping-run] old(has(j.runner.raffle.runningJobs, j.id)) ==> $syncCalls == old($syncCalls)
@@ -216,6 +374,8 @@ package jobs
 //@     ghost ticketG := $result != nil
 //@   at call instrumentErrorHandling#1 before
 //@     assert [C17,C11:handler-counters-are-reset-only-by-the-run-that-holds-the-ticket-never-by-a-skipped-trigger] ticketG
+//@   at call queueRetry#1 before
+//@     assert [C11:a-full-sync-that-found-no-ticket-queues-itself-and-nothing-else-for-the-retry] $arg1 == j && !ticketG && isFullP(j.pipeline)
 
 // ---------------------------------------------------------------------------
 // C17: bounded re-runs: one failure schedules at most one re-run and consumes one retry at scheduling time
@@ -264,6 +424,7 @@ package jobs
 
 //@ unit (*FullSyncPipeline).sync$1
 //@   prop C10 C08
+//@   preserves SyncJobState.ID
 //@   ghost sinkOkG bool = false
 //@   ensures [C10:stop-only-when-the-source-page-was-empty-or-untokenized] result == nil && old(keepReading) && !keepReading ==> len(entities) == 0 || tokenOf(continuationToken) == ""
 //@   ensures [C10:keep-reading-while-the-source-has-more] result == nil && old(keepReading) && len(entities) > 0 && tokenOf(continuationToken) != "" ==> keepReading
@@ -275,8 +436,51 @@ package jobs
 //@   at call Encode#1 before
 //@     assert [C08:token-captured-only-after-the-sink-accepted-the-batch] len(entities) == 0 || sinkOkG
 
+// the callbacks the pipelines hand to the source pass every batch on, unchanged and together with its continuation, to
+// the per-batch closure, and give the source that closure's verdict
+//@ unit (*FullSyncPipeline).sync$2
+//@   prop C10 C08
+//@   ghost resG iface
+//@   dyncall processEntities preserves FullSyncPipeline.*, PipelineSpec.*, job.*, Runner.*
+//@   ensures [C10,C08:the-source-gets-the-pipelines-verdict-on-the-batch] result == resG
+//@   at call processEntities#1 before
+//@     assert [C10,C08:the-source-batch-reaches-the-pipeline-unchanged-with-its-own-continuation] $arg0 == entities && $arg1 == c
+//@   at call processEntities#1
+//@     ghost resG := $result
+//@ unit (*IncrementalPipeline).sync$2
+//@   prop C10 C08
+//@   ghost resG iface
+//@   dyncall processEntities preserves IncrementalPipeline.*, PipelineSpec.*, job.*, Runner.*
+//@   ensures [C10,C08:the-source-gets-the-pipelines-verdict-on-the-batch] result == resG
+//@   at call processEntities#1 before
+//@     assert [C10,C08:the-source-batch-reaches-the-pipeline-unchanged-with-its-own-continuation] $arg0 == entities && $arg1 == c
+//@   at call processEntities#1
+//@     ghost resG := $result
+
+// a transform worker of the incremental pipeline hands exactly its own chunk to the transform (its own clone of a
+// JavaScript transform) and leaves what came back, entities and error, in its own result slot
+//@ unit (*IncrementalPipeline).sync$1$1
+//@   prop C10
+//@   ghost outG []*server.Entity
+//@   ghost errG iface
+//@   requires runner != nil && 0 <= workId && workId < len(workResults)
+//@   ensures [C10:the-workers-result-lands-in-its-own-slot] workResults[workId].entities == outG && workResults[workId].err == errG
+//@   at call transformEntities#1 before
+//@     assert [C10:the-worker-hands-exactly-its-chunk-to-its-own-clone-of-the-transform] $arg2 == lentities && $arg1 == runner
+//@     assume [TRUSTED-a-script-that-compiled-when-the-job-was-accepted-compiles-again-when-cloned] tc != nil
+//@   at call transformEntities#1
+//@     ghost outG := $result0
+//@     ghost errG := $result1
+//@   at call transformEntities#2 before
+//@     assert [C10:the-worker-hands-exactly-its-chunk-to-the-transform] $arg2 == lentities && $arg1 == runner
+//@   at call transformEntities#2
+//@     ghost outG := $result0
+//@     ghost errG := $result1
+
+// (a source, and the per-batch closure it calls back, moves the sync state's token but never its id: the closures
+// sync$1 are checked to preserve SyncJobState.ID)
 //@ assumed (source.Source).ReadEntities
-//@   preserves FullSyncPipeline.*, IncrementalPipeline.*, PipelineSpec.*, job.*, Runner.*
+//@   preserves FullSyncPipeline.*, IncrementalPipeline.*, PipelineSpec.*, job.*, Runner.*, SyncJobState.ID
 //@ assumed (source.Source).StartFullSync
 //@   pure
 //@ assumed (source.Source).EndFullSync
@@ -287,18 +491,57 @@ package jobs
 //@   pure
 //@ assumed (jobs.Transform).EndStoreContext
 //@   pure
-//@ assumed source.DecodeToken
-//@   pure
 
 //@ unit (*FullSyncPipeline).sync
-//@   prop C08
+//@   prop C08 C09 C14
 //@   ghost endOkG bool = false
+//@   ghost startOkG bool = false
+//@   ghost tokG iface
 //@   requires pipeline != nil && job != nil && job.runner != nil && job.runner.store != nil
+//@   at call GetObject#1 before
+//@     assert [C08:the-sync-state-is-read-from-the-key-it-is-stored-under] $arg1 == server.JobDataIndex && $arg2 == job.id && cast($arg3, "*jobs.SyncJobState") == syncJobState
+//@   at call startFullSync#1
+//@     ghost startOkG := $result == nil
+//@   at call DecodeToken#1 before
+//@     assert [C08:every-page-of-the-full-sync-is-read-from-the-token-captured-with-the-previous-page] $arg1 == syncJobState.ContinuationToken
+//@   at call DecodeToken#1
+//@     ghost tokG := $result0
+//@   at call ReadEntities#1 before
+//@     assert [C08:the-source-is-read-from-the-decoded-token-with-the-pipelines-batch-size] $arg2 == tokG && $arg3 == pipeline.PipelineSpec.batchSize && $arg1 == ctx
+//@     assert [C09:no-page-is-read-before-the-sink-started-its-sync] startOkG
+//@   at call endFullSync#1 before
+//@     assert [C09:the-sink-completes-its-sync-only-after-the-source-was-read-to-the-end] !keepReading && startOkG && $arg2 == runner
+//@   loop 1
+//@     invariant [C08,C14:the-sync-state-that-will-be-stored-carries-the-jobs-id] syncJobState != nil && syncJobState.ID == job.id
+//@     invariant [C09:the-pages-are-read-inside-the-sync-the-sink-started] startOkG
+//@     invariant !endOkG && runner == job.runner && runner.store != nil && pipeline != nil && job != nil
 //@   at call endFullSync#1
 //@     ghost endOkG := $result == nil
 //@   at call StoreObject#1 before
 //@     assert [C08:fullsync-token-stored-only-after-the-sync-completed] endOkG
 //@     assert [C08:token-stored-under-the-job-id] id == job.id
+//@     assert [C08,C14:the-stored-sync-state-is-the-one-of-this-run-and-carries-the-jobs-id-so-a-reset-finds-it] $arg1 == server.JobDataIndex && $arg2 == job.id && cast($arg3, "*jobs.SyncJobState") == syncJobState && syncJobState.ID == job.id
+
+// C08 / C18: an incremental run reads the job's sync state from the key it is stored under, reads every page from the
+// token stored with the previous page, with the pipeline's batch size, and keeps the job's id in the state it stores; a
+// MultiSource job that never ran is handed to a full-sync pipeline over the very same source, transform and sink
+//@ unit (*IncrementalPipeline).sync
+//@   prop C08 C18
+//@   ghost tokG iface
+//@   requires pipeline != nil && job != nil && job.runner != nil && job.runner.store != nil
+//@   at call GetObject#1 before
+//@     assert [C08:the-sync-state-is-read-from-the-key-it-is-stored-under] $arg1 == server.JobDataIndex && $arg2 == job.id && cast($arg3, "*jobs.SyncJobState") == syncJobState
+//@   at call sync#1 before
+//@     assert [C08,C18:a-multi-source-job-that-never-ran-starts-with-a-full-sync-over-the-same-parts] syncJobState.ContinuationToken == "" && $arg0 != nil && $arg0.PipelineSpec.source == pipeline.PipelineSpec.source && $arg0.PipelineSpec.sink == pipeline.PipelineSpec.sink && $arg0.PipelineSpec.transform == pipeline.PipelineSpec.transform && $arg0.PipelineSpec.batchSize == pipeline.PipelineSpec.batchSize && $arg1 == job && $arg2 == ctx
+//@   at call DecodeToken#1 before
+//@     assert [C08:every-page-is-read-from-the-token-stored-with-the-previous-page] $arg1 == syncJobState.ContinuationToken
+//@   at call DecodeToken#1
+//@     ghost tokG := $result0
+//@   at call ReadEntities#1 before
+//@     assert [C08:the-source-is-read-from-the-decoded-token-with-the-pipelines-batch-size] $arg2 == tokG && $arg3 == pipeline.PipelineSpec.batchSize && $arg1 == ctx
+//@   loop 1
+//@     invariant [C08,C14:the-sync-state-the-batches-store-carries-the-jobs-id] syncJobState != nil && syncJobState.ID == job.id
+//@     invariant runner == job.runner && runner.store != nil && pipeline != nil && job != nil
 
 //@ assumed (*JavascriptTransform).Clone
 //@   pure
@@ -344,11 +587,47 @@ package jobs
 //@   requires [callers-hold-no-lock-at-or-above-dataset-level] forall l int :: has($held, l) ==> lockLevel(l) < 2
 //@   at call CompleteFullSync#1 before
 //@     assume ds != nil && ds.store != nil && !has($held, addrOf(ds.WriteLock))
+//@   ghost dsG *server.Dataset = nil
+//@   ghost lookedG bool = false
+//@   ghost doneG bool = false
+//@   ghost errG iface
+//@   ensures [C09:a-sink-whose-dataset-is-gone-reports-an-error-instead-of-a-completed-sync] lookedG && dsG == nil ==> result != nil && !doneG
+//@   ensures [C09:the-pipeline-gets-the-outcome-of-the-completion-so-a-failed-one-stores-no-token] doneG ==> result == errG
+//@   ensures [C09:success-means-the-sync-of-the-sinks-dataset-was-completed] result == nil ==> doneG && errG == nil
+//@   at call GetDataset#1 before
+//@     assert [C09:the-sync-is-completed-on-the-dataset-the-sink-writes-to] $arg1 == datasetSink.DatasetName && $arg0 == datasetSink.DatasetManager
+//@   at call GetDataset#1
+//@     ghost dsG := $result
+//@     ghost lookedG := true
+//@   at call CompleteFullSync#1 before
+//@     assert [C09:the-dataset-completed-is-the-one-just-looked-up] $arg0 == dsG && dsG != nil && $arg1 == ctx
+//@   at call CompleteFullSync#1
+//@     ghost doneG := true
+//@     ghost errG := $result
+//@   at call Emit#1 before
+//@     assert [C09:the-change-event-after-a-completed-sync-names-the-sinks-dataset] $arg2 == "dataset." + datasetSink.DatasetName && doneG && errG == nil
 
 //@ unit (*datasetSink).startFullSync
 //@   prop C09
 //@   requires datasetSink != nil
 //@   ensures [job-sync-starts-with-an-empty-seen-set] result == nil ==> true
+//@   ghost dsG *server.Dataset = nil
+//@   ghost lookedG bool = false
+//@   ghost startedG bool = false
+//@   ghost errG iface
+//@   ensures [C09:a-sink-whose-dataset-is-gone-reports-an-error-instead-of-a-started-sync] lookedG && dsG == nil ==> result != nil && !startedG
+//@   ensures [C09:the-pipeline-gets-the-outcome-of-the-start] startedG ==> result == errG
+//@   ensures [C09:success-means-a-sync-was-started-on-the-sinks-dataset] result == nil ==> startedG && errG == nil
+//@   at call GetDataset#1 before
+//@     assert [C09:the-sync-is-started-on-the-dataset-the-sink-writes-to] $arg1 == datasetSink.DatasetName && $arg0 == datasetSink.DatasetManager
+//@   at call GetDataset#1
+//@     ghost dsG := $result
+//@     ghost lookedG := true
+//@   at call StartFullSync#1 before
+//@     assert [C09:the-dataset-whose-sync-is-started-is-the-one-just-looked-up] $arg0 == dsG && dsG != nil
+//@   at call StartFullSync#1
+//@     ghost startedG := true
+//@     ghost errG := $result
 
 // ---------------------------------------------------------------------------
 // C14 / C11: the job registry is write-through. A job definition is stored under (JobConfigIndex, its id) before it is
@@ -358,14 +637,92 @@ package jobs
 // every trigger of a job definition becomes one job with a pipeline parsed for that trigger alone (the error handling
 // wraps the pipeline's sink with the trigger's own handlers, so two triggers must never share a pipeline) and with the
 // trigger's own error handlers
-//@ assumed (*Scheduler).toPipeline
+// the pipeline of a trigger: sink, source and transform are each parsed from THIS definition (the three parsers are big
+// switches over the JSON configuration and stay trusted: only their frame is stated), the pipeline is built from exactly
+// those parts, a part that cannot be parsed fails the definition, the batch size is the configured one or the default
+// (never below one), and the job type decides the kind: "fullsync" a FullSyncPipeline (full-sync ticket pool, full-sync
+// protocol), anything else an IncrementalPipeline
+//@ assumed (*server.Dataset).IsProxy
 //@   pure
+//@ assumed server.URLJoin
+//@   pure
+// the sink of a definition: a DatasetSink on a local dataset writes to the dataset named in the configuration, through the
+// scheduler's own dataset manager and store (the datasetSink contract relies on that manager being there); an unknown or
+// missing sink type is refused; no error means there is a sink
+//@ unit (*Scheduler).parseSink
+//@   prop C08 C11
+//@   requires s != nil && jobConfig != nil
+//@   preserves Scheduler.*, JobConfiguration.*, Runner.*, []*jobs.JobConfiguration
+//@   ensures [C11:no-error-means-a-sink] ret1 == nil ==> !isnil(ret0)
+//@   ensures [C11:a-definition-without-a-sink-type-is-refused] jobConfig.Sink == nil || isnil(jobConfig.Sink["Type"]) ==> ret1 != nil
+//@   ensures [C08:a-dataset-sink-writes-to-the-configured-dataset-through-the-schedulers-manager-and-store] ret1 == nil && typeof(ret0) == typeid("*jobs.datasetSink") ==> cast(ret0, "*jobs.datasetSink") != nil && cast(ret0, "*jobs.datasetSink").DatasetName == cast(jobConfig.Sink["Name"], "string") && cast(ret0, "*jobs.datasetSink").DatasetManager == s.DatasetManager && cast(ret0, "*jobs.datasetSink").Store == s.Store
+//@   at call GetDataset#1 before
+//@     assert [C08:the-proxy-check-looks-at-the-configured-sink-dataset] $arg1 == cast(jobConfig.Sink["Name"], "string") && $arg0 == s.DatasetManager
+// (parseSource was tried as a unit: the DatasetSource / MultiSource cases verify, but the UnionDatasetSource case - a
+// loop that calls parseSource recursively on definitions built on the fly - leaves the solvers without an answer)
+//@ assumed (*Scheduler).parseSource
+//@   preserves Scheduler.*, JobConfiguration.*, Runner.*, []*jobs.JobConfiguration
+//@ assumed (*Scheduler).parseTransform
+//@   preserves Scheduler.*, JobConfiguration.*, Runner.*, []*jobs.JobConfiguration
+//@ unit (*ErrorHandler).init
+//@   prop C17
+//@   requires h != nil
+//@   modifies ReQueueFailingEntityHandler.dsm
+//@   ensures [C17:a-requeue-handler-gets-the-dataset-manager-it-queues-into] h.Type == "requeue" && typeof(h.failingEntityHandler) == typeid("*jobs.ReQueueFailingEntityHandler") && cast(h.failingEntityHandler, "*jobs.ReQueueFailingEntityHandler") != nil ==> cast(h.failingEntityHandler, "*jobs.ReQueueFailingEntityHandler").dsm == dsm
+// (initErrorHandling / ErrorHandlers.init walk the triggers through pointers to slices, which the contract language
+// cannot dereference: their frame - they only hand the dataset manager to requeue handlers - stays trusted)
+//@ assumed (*Scheduler).initErrorHandling
+//@   modifies ReQueueFailingEntityHandler.dsm
+//@ unit (*FullSyncPipeline).isFullSync
+//@   prop C11
+//@   ensures [C11:a-fullsync-pipeline-draws-from-the-fullsync-pool] result
+//@ unit (*IncrementalPipeline).isFullSync
+//@   prop C11
+//@   ensures [C11:an-incremental-pipeline-draws-from-the-incremental-pool] !result
+//@ unit (*Scheduler).toPipeline
+//@   prop C11 C10 C17
+//@   ghost sinkG iface
+//@   ghost srcG iface
+//@   ghost trG iface
+//@   ghost sinkErrG iface
+//@   ghost srcErrG iface
+//@   ghost trErrG iface
+//@   ghost sinkDoneG bool = false
+//@   ghost srcDoneG bool = false
+//@   ghost trDoneG bool = false
+//@   requires s != nil && jobConfig != nil
+//@   preserves Scheduler.*, JobConfiguration.*, Runner.*, []*jobs.JobConfiguration
+//@   ensures [C11:the-job-type-decides-the-kind-of-pipeline] ret1 == nil ==> (jobType == "fullsync" ==> typeof(ret0) == typeid("*jobs.FullSyncPipeline") && cast(ret0, "*jobs.FullSyncPipeline") != nil) && (jobType != "fullsync" ==> typeof(ret0) == typeid("*jobs.IncrementalPipeline") && cast(ret0, "*jobs.IncrementalPipeline") != nil)
+//@   ensures [C10,C11:a-fullsync-pipeline-is-built-from-the-parts-parsed-for-this-definition] ret1 == nil && jobType == "fullsync" ==> cast(ret0, "*jobs.FullSyncPipeline").PipelineSpec.sink == sinkG && cast(ret0, "*jobs.FullSyncPipeline").PipelineSpec.source == srcG && cast(ret0, "*jobs.FullSyncPipeline").PipelineSpec.transform == trG
+//@   ensures [C10,C11:an-incremental-pipeline-is-built-from-the-parts-parsed-for-this-definition] ret1 == nil && jobType != "fullsync" ==> cast(ret0, "*jobs.IncrementalPipeline").PipelineSpec.sink == sinkG && cast(ret0, "*jobs.IncrementalPipeline").PipelineSpec.source == srcG && cast(ret0, "*jobs.IncrementalPipeline").PipelineSpec.transform == trG
+//@   ensures [C10:the-batch-size-is-the-configured-one-or-the-default-never-below-one] ret1 == nil && jobType == "fullsync" ==> cast(ret0, "*jobs.FullSyncPipeline").PipelineSpec.batchSize == (jobConfig.BatchSize < 1 ? 10000 : jobConfig.BatchSize)
+//@   ensures [C10:the-batch-size-of-an-incremental-pipeline-is-the-configured-one-or-the-default-never-below-one] ret1 == nil && jobType != "fullsync" ==> cast(ret0, "*jobs.IncrementalPipeline").PipelineSpec.batchSize == (jobConfig.BatchSize < 1 ? 10000 : jobConfig.BatchSize)
+//@   ensures [C11:all-three-parts-were-parsed-for-an-accepted-pipeline] ret1 == nil ==> sinkDoneG && srcDoneG && trDoneG && sinkErrG == nil && srcErrG == nil && trErrG == nil
+//@   ensures [C11:a-part-that-cannot-be-parsed-fails-the-definition] (sinkDoneG && sinkErrG != nil) || (srcDoneG && srcErrG != nil) || (trDoneG && trErrG != nil) ==> ret1 != nil && isnil(ret0)
+//@   at call parseSink#1 before
+//@     assert [C11:the-sink-is-parsed-from-this-definition] $arg1 == jobConfig
+//@   at call parseSink#1
+//@     ghost sinkG := $result0
+//@     ghost sinkErrG := $result1
+//@     ghost sinkDoneG := true
+//@   at call parseSource#1 before
+//@     assert [C11:the-source-is-parsed-from-this-definition] $arg1 == jobConfig
+//@   at call parseSource#1
+//@     ghost srcG := $result0
+//@     ghost srcErrG := $result1
+//@     ghost srcDoneG := true
+//@   at call parseTransform#1 before
+//@     assert [C11:the-transform-is-parsed-from-this-definition] $arg1 == jobConfig
+//@   at call parseTransform#1
+//@     ghost trG := $result0
+//@     ghost trErrG := $result1
+//@     ghost trDoneG := true
 //@ unit (*Scheduler).toTriggeredJobs
 //@   prop C17 C11 C14
 //@   ghost nPipesG int = 0
 //@   ghost lastPipeG iface
 //@   requires s != nil && jobConfig != nil
-//@   preserves Scheduler.*, JobConfiguration.*, Runner.*
+//@   preserves Scheduler.*, JobConfiguration.*, Runner.*, []*jobs.JobConfiguration
 //@   ensures [C17,C11:one-job-per-trigger] ret1 == nil ==> len(ret0) == len(jobConfig.Triggers)
 //@   at call toPipeline#1 before
 //@     assert [C17:the-pipeline-is-parsed-for-the-triggers-own-job-type] $arg1 == jobConfig && $arg2 == t.JobType
@@ -385,8 +742,20 @@ package jobs
 //@   pure
 //@ assumed (*errgroup.Group).Wait
 //@   pure
-//@ assumed (*Scheduler).resolveJobTitle
-//@   pure
+// the title used in the log lines and schedule entries of a job is the title of the definition stored under that id
+//@ unit (*Scheduler).resolveJobTitle
+//@   prop C14
+//@   ghost loadedG *JobConfiguration = nil
+//@   ghost errG iface
+//@   requires s != nil && s.Store != nil
+//@   frame-assumed preserves Scheduler.*
+//@   ensures [C14:the-title-is-the-one-of-the-stored-definition-of-that-job] errG == nil ==> loadedG != nil && result == loadedG.Title
+//@   ensures [C14:an-unreadable-definition-has-no-title] errG != nil ==> result == ""
+//@   at call LoadJob#1 before
+//@     assert [C14:the-title-is-resolved-from-the-definition-stored-under-the-same-id] $arg1 == jobID
+//@   at call LoadJob#1
+//@     ghost loadedG := $result0
+//@     ghost errG := $result1
 //@ assumed (*server.Store).DeleteObject
 //@   pure
 
@@ -395,6 +764,7 @@ package jobs
 //@   ghost verifiedG bool = false
 //@   ghost storedG bool = false
 //@   requires s != nil && s.Store != nil && jobConfig != nil
+//@   preserves Scheduler.*, []*jobs.JobConfiguration
 //@   ensures [C14:acknowledged-job-definition-was-persisted] result == nil ==> storedG
 //@   at call verify#1
 //@     ghost verifiedG := $result == nil
@@ -440,8 +810,72 @@ package jobs
 // C11: a job definition is accepted only if every one of its triggers passed the validation of its error handlers, and
 // that validation leaves every log / requeue handler with its per-entity handler installed (a nil one is dereferenced
 // in a bare goroutine when the first entity fails)
-//@ assumed (*Scheduler).ListJobs
-//@   pure
+// C14: the stored job definitions are read back from the collection AddJob writes them to (JobConfigIndex), every
+// record that parses is handed on, in stored order, a record that does not parse ends the listing with its error; at start
+// every definition read back is scheduled again through AddJob, also after an earlier one was refused
+// (the package variable server.JobConfigsIndexBytes is initialised to uint16ToBytes(JobConfigIndex): two bytes, big endian)
+//@ global server.JobConfigsIndexBytes: len(v) == 2 && encBE16(v, 0) == server.JobConfigIndex
+//@ assumed (*server.Store).IterateObjectsRaw
+//@   preserves Scheduler.*, JobConfiguration.*, []*jobs.JobConfiguration, Runner.*, []jobs.JobTrigger, JobTrigger.*, []*jobs.ErrorHandler, ErrorHandler.*
+//@ unit (*Scheduler).loadConfigurations
+//@   prop C14
+//@   requires s != nil && s.Store != nil
+//@   preserves Scheduler.*, JobConfiguration.*, []*jobs.JobConfiguration, Runner.*, []jobs.JobTrigger, JobTrigger.*, []*jobs.ErrorHandler, ErrorHandler.*
+//@   at call IterateObjectsRaw#1 before
+//@     assert [C14:job-definitions-are-reloaded-from-the-collection-they-are-stored-in] len($arg1) == 2 && encBE16($arg1, 0) == server.JobConfigIndex && $arg0 == s.Store
+//@ unit (*Scheduler).loadConfigurations$1
+//@   prop C14
+//@   ghost errG iface
+//@   ghost cfgG *JobConfiguration = nil
+//@   ensures [C14:every-stored-definition-that-parses-is-handed-on-in-stored-order] result == nil ==> len(jobConfigs) == old(len(jobConfigs)) + 1 && jobConfigs[len(jobConfigs) - 1] == cfgG && cfgG != nil && fresh(cfgG) && (forall k int :: 0 <= k && k < old(len(jobConfigs)) ==> jobConfigs[k] == old(jobConfigs[k]))
+//@   ensures [C14:a-record-that-does-not-parse-ends-the-listing-with-its-error] errG != nil ==> result == errG && len(jobConfigs) == old(len(jobConfigs))
+//@   ensures [C14:a-record-that-parses-is-not-an-error] errG == nil ==> result == nil
+//@   at call Unmarshal#1 before
+//@     assert [C14:the-stored-record-is-parsed-into-the-definition-handed-on] $arg0 == jsonData && cast($arg1, "*jobs.JobConfiguration") == jobConfig && typeof($arg1) == typeid("*jobs.JobConfiguration")
+//@     ghost cfgG := jobConfig
+//@   at call Unmarshal#1
+//@     ghost errG := $result
+// the job history is read from the collection job.Run records the run results in (JobResultIndex), every record that
+// parses is listed, in stored order
+//@ global server.JobResultIndexBytes: len(v) == 2 && encBE16(v, 0) == server.JobResultIndex
+//@ unit (*Scheduler).GetJobHistory
+//@   prop C11
+//@   requires s != nil && s.Store != nil
+//@   at call IterateObjectsRaw#1 before
+//@     assert [C11:the-job-history-is-read-from-the-collection-the-run-results-are-recorded-in] len($arg1) == 2 && encBE16($arg1, 0) == server.JobResultIndex && $arg0 == s.Store
+//@ unit (*Scheduler).GetJobHistory$1
+//@   prop C11
+//@   ghost errG iface
+//@   ghost resG *jobResult = nil
+//@   ensures [C11:every-recorded-run-result-that-parses-is-listed-in-stored-order] result == nil ==> len(results) == old(len(results)) + 1 && results[len(results) - 1] == resG && resG != nil && (forall k int :: 0 <= k && k < old(len(results)) ==> results[k] == old(results[k]))
+//@   ensures [C11:a-record-that-does-not-parse-ends-the-history-with-its-error] errG != nil ==> result == errG && len(results) == old(len(results))
+//@   at call Unmarshal#1 before
+//@     assert [C11:the-recorded-result-is-parsed-into-the-entry-that-is-listed] $arg0 == jsonData && cast($arg1, "*jobs.jobResult") == jobResult && typeof($arg1) == typeid("*jobs.jobResult")
+//@     ghost resG := jobResult
+//@   at call Unmarshal#1
+//@     ghost errG := $result
+//@ unit (*Scheduler).ListJobs
+//@   prop C14 C11
+//@   ghost listedG slice
+//@   requires s != nil && s.Store != nil
+//@   preserves Scheduler.*, JobConfiguration.*, []*jobs.JobConfiguration, Runner.*, []jobs.JobTrigger, JobTrigger.*, []*jobs.ErrorHandler, ErrorHandler.*
+//@   ensures [C14,C11:the-job-list-is-the-stored-definitions] result == listedG
+//@   at call loadConfigurations#1
+//@     ghost listedG := $result
+//@ unit (*Scheduler).Start
+//@   prop C14
+//@   ghost loadedG []*JobConfiguration
+//@   ghost addedG int = 0
+//@   requires s != nil && s.Store != nil
+//@   ensures [C14:no-reloaded-definition-is-skipped-even-after-an-earlier-one-was-refused] addedG == len(loadedG)
+//@   at call loadConfigurations#1
+//@     ghost loadedG := $result
+//@   at call AddJob#1 before
+//@     assert [C14:every-reloaded-definition-is-scheduled-again-in-stored-order] $arg1 == loadedG[$i1 + 1] && addedG == $i1 + 1 && $arg0 == s
+//@     ghost addedG := addedG + 1
+//@     assume [TRUSTED-reloaded-definitions-are-objects] $arg1 != nil
+//@   loop 1
+//@     invariant -1 <= $i && $i < len(loadedG) && addedG == $i + 1 && s.Store != nil
 //@ assumed cron.ParseStandard
 //@   pure
 //@ assumed strings.ToLower
@@ -462,7 +896,9 @@ package jobs
 //@ unit (*Scheduler).verify
 //@   prop C11
 //@   ghost checkedG int = 0
-//@   requires s != nil && jobConfiguration != nil
+//@   requires s != nil && s.Store != nil && jobConfiguration != nil
+//@   preserves Scheduler.*, []*jobs.JobConfiguration
+//@   ghost listG []*JobConfiguration
 //@   requires-inv [error-handler-lists-hold-no-null-entries] jobConfiguration != nil ==> (forall i int, k int :: 0 <= i && i < len(jobConfiguration.Triggers) && 0 <= k && k < len(jobConfiguration.Triggers[i].ErrorHandlers) ==> jobConfiguration.Triggers[i].ErrorHandlers[k] != nil)
 //@   ensures [C11:accepted-definition-had-the-error-handlers-of-every-trigger-validated] result == nil ==> checkedG == len(jobConfiguration.Triggers) && checkedG >= 1
 //@   at call verifyErrorHandlers#1 before
@@ -470,6 +906,12 @@ package jobs
 //@     ghost checkedG := checkedG + 1
 //@   loop 2
 //@     invariant -1 <= $i && $i < len(jobConfiguration.Triggers) && checkedG == $i + 1
+//@   ensures [C11:an-accepted-definition-does-not-take-the-title-of-another-stored-job] result == nil ==> (forall k int :: 0 <= k && k < len(listG) ==> listG[k].Title != jobConfiguration.Title || listG[k].ID == jobConfiguration.ID)
+//@   at call ListJobs#1
+//@     ghost listG := $result
+//@   loop 1
+//@     invariant -1 <= $i && $i < len(listG)
+//@     invariant [C11:no-stored-job-of-another-id-seen-so-far-has-this-title] forall k int :: 0 <= k && k <= $i ==> listG[k].Title != jobConfiguration.Title || listG[k].ID == jobConfiguration.ID
 
 // ---------------------------------------------------------------------------
 // C08 / C04: the dataset sink hands the whole batch to the named dataset's StoreEntities and reports exactly that call's
